@@ -11,6 +11,7 @@
 mod depgraph;
 mod shapes;
 mod typeexpr;
+mod bytesattr;
 mod reference;
 mod remap;
 
@@ -188,6 +189,9 @@ struct Case {
     /// dimension, see typeexpr.rs)
     #[serde(default, skip_serializing_if = "Option::is_none")]
     type_expr: Option<typeexpr::TypeExpr>,
+    /// one field of a dependent crate loses its serde_bytes attribute (see bytesattr.rs)
+    #[serde(default, skip_serializing_if = "Option::is_none")]
+    strip_bytes: Option<bytesattr::StripBytes>,
 }
 
 #[derive(Serialize, Deserialize, Clone, Debug, PartialEq, Eq, PartialOrd, Ord)]
@@ -422,6 +426,11 @@ fn execute(fx: &Fixtures, case: &Case) -> RunResult {
             typeexpr::apply(&mut k, te, fx.max_id[name]);
             retyped = Some(k);
         }
+        if let Some(sb) = case.strip_bytes.as_ref().filter(|t| t.krate == name) {
+            let mut k = retyped.take().unwrap_or_else(|| (**c).clone());
+            bytesattr::apply(&mut k, sb);
+            retyped = Some(k);
+        }
         let mut out = match (numbering.get(name).copied(), retyped) {
             (None | Some(Numbering::Identity), Some(k)) => k,
             (None | Some(Numbering::Identity), None) => (**c).clone(),
@@ -571,6 +580,7 @@ fn baseline_case(description: &str, deps: &[String]) -> Case {
         dep_graph: None,
         variant_shape: None,
         type_expr: None,
+        strip_bytes: None,
     }
 }
 
@@ -601,6 +611,7 @@ fn plan(fx: &Fixtures, description: &str, base: &RunOut, tier: Tier, scope: &BTr
         dep_graph: None,
         variant_shape: None,
         type_expr: None,
+        strip_bytes: None,
     };
     let mut cases = vec![];
 
@@ -1231,6 +1242,7 @@ fn main() {
     let dep_graphs = depgraph::run_dimension(&fx, &base, tier, &reporter, &deadline, &mut samples);
     let variant_shapes = shapes::run_dimension(&fx, &base, tier, &reporter, &deadline, &mut samples);
     let type_exprs = typeexpr::run_dimension(&fx, &base, tier, &reporter, &deadline, &mut samples);
+    let bytes_attr = bytesattr::run_dimension(&fx, &base, tier, &reporter);
 
     // ---- plan -----------------------------------------------------------------------------------
     // designated description of a dependent crate: fewest loaded crates, then name
@@ -1621,6 +1633,7 @@ fn main() {
         },
         "dependency_graphs": dep_graphs.as_ref().map_or(json!("not run: the descriptions it is built from were excluded"), |dg| dg.coverage.clone()),
         "variant_shapes": variant_shapes.as_ref().map_or(json!("not run: the descriptions it is built from were excluded"), |v| v.coverage.clone()),
+        "field_attribute_serde_bytes": bytes_attr.coverage.clone(),
         "field_type_expressions": type_exprs.as_ref().map_or(json!("not run: a development filter excluded descriptions"), |v| v.coverage.clone()),
         "per_description": per_description,
         "descriptions": base.keys().collect::<Vec<_>>(),
